@@ -17,6 +17,9 @@ from vmon.oracle.invariant import inconsistencies
 
 EVALS = {}
 F8_KEY = "pair-table-shorter-than-type-table-on-merge"
+# set by a check while it re-reads a file written from an object that carries the F8 mechanism flag: the object constructed
+# by the reader is new and cannot carry the flag itself
+PAIR_MERGE_CONTEXT = [False]
 _ctx = [None]
 _stats = [None]
 _running = [None]
@@ -245,6 +248,6 @@ def check_atoms_consistent(atoms, where):
     bad = inconsistencies(atoms)
     for clause, msg in bad:
         key = None
-        if clause == "pair_table_covers_types" and getattr(atoms, "_vmon_pair_merge", False) and len(bad) == 1:
+        if clause == "pair_table_covers_types" and (getattr(atoms, "_vmon_pair_merge", False) or PAIR_MERGE_CONTEXT[0]) and len(bad) == 1:
             key = F8_KEY
         report("C09", clause, "%s after %s" % (msg, where), witness={"where": where, "clause": clause}, key=key)
